@@ -237,3 +237,12 @@ func debugPanic() {
 }
 
 func small() bool { return os.Getenv("VERIF_SMALL") != "" }
+
+func minInt(a, b int) int {
+	if a < b {
+		return a
+	}
+	return b
+}
+
+func os_debug() bool { return os.Getenv("VERIF_DEBUG") != "" }
